@@ -1,5 +1,6 @@
 import logging
 from base64 import b64encode
+from copy import deepcopy
 from datetime import date
 from ipaddress import IPv4Network, IPv6Network
 from typing import Dict, List, Union
@@ -111,7 +112,8 @@ def resolve_find_in_map(function_body, params: Dict, mappings: Dict[str, Dict], 
 
     resolved_mapping = mappings.get(map_name, {}).get(top_level_key, {}).get(second_level_key)
     if resolved_mapping is not None:
-        return resolved_mapping
+        # a copy: the resolved model must not share a list / dict leaf with the Mappings of the model being resolved
+        return deepcopy(resolved_mapping)
     else:
         logger.warning(
             f"Using `UNDEFINED_MAPPING_{map_name}_{top_level_key}_{second_level_key}` for {[map_name, top_level_key, second_level_key]}. Original value wasn't available."
